@@ -23,7 +23,10 @@ CHECKS = {
         "and run on the real ServerState, seeded random histories over free-form texts likewise; ServerTrace.tla judges every recorded edit "
         "by the property's own oracle (held diagnostics = those of a freshly started server, nothing held for modules without a source).",
    note="Trusted: hook H2 (recheck set, map domains); ServerState::new as the from-scratch analysis; bounded pools (10 / 155 abstract contents, "
-        "15 free-form templates, 4 module names). Strict-mode disagreement with Server.tla's actions is MODEL-DRIFT, never a violation.",
+        "22 free-form templates incl. ill-typed and long-identifier ones, three scripted dependency-chain prefixes, re-sent and twice-listed "
+        "modules, 4 module names; two GC slice sizes). Strict-mode disagreement with Server.tla's actions is MODEL-DRIFT, never a violation. "
+        "Open known findings: two diagnostics list names in interning order (member list, or-pattern bindings); both sides are rewritten to "
+        "sorted lists only where that order is the only difference.",
    technique="TLA+ spec + TLC exhaustive model checking; replay of TLC-simulated histories and trace validation of random histories on the real server"),
  "C11": dict(
    level="model_checking", design="§3.2, §5 C11",
@@ -77,7 +80,9 @@ CHECKS = {
         "under every processing order). Code level: every program (accepted and rejected) is compiled and run again in fresh processes with "
         "RAYON_NUM_THREADS in {1,2,3,8,16}; Observations.tla (invariant C12) accepts iff verdict, rendered diagnostics and both back ends' "
         "behaviour are identical across all repetitions.",
-   note="Hash seeds and schedules are sampled on the code (fresh processes), exhaustive only on the models.",
+   note="Hash seeds and schedules are sampled on the code (fresh processes; the harness also interns module names in a different order in every "
+        "process), exhaustive only on the models. Programs are compiled by the compiler's own driver (compile_sources). Open known finding: rendered "
+        "diagnostics list modules in interning order (pinned by checker_integration_tests); error blocks are sorted only where that is the only difference.",
    technique="TLA+ scheduling/layout models checked by TLC + repeated fresh-process runs judged by a TLA+ observation spec"),
  "C07": dict(
    level="model_checking", design="§5 C07",
